@@ -494,7 +494,11 @@ class Grower:
             self.out(x3, [1, b, f])
             n = rng.randint(1, 3)
             adjy = rng.random() < 0.4
-            if rng.random() < 0.7:
+            force = getattr(self, "bmm_force", None)
+            if force is not None:
+                adjy = force[0]
+                n = rng.randint(2, 3)
+            if (force[1] if force is not None else rng.random() < 0.7):
                 yv = self.const([1, n, f] if adjy else [1, f, n])
             else:
                 cands = [t for t, shp in self.acts if shp == ((1, n, f) if adjy else (1, f, n))]
@@ -538,12 +542,13 @@ class Grower:
 
 
 def grow_subgraph(g: G, rng, n_ops, prefix="", sig=None, kinds=None, share=0.0, shared_consts=None, p_unsupported=0.25,
-                  name_hazard=0.0, extra_outputs=0.3, allow_dead=0.1, const_output=0.0, const_kinds=None, alias_sig=None, bool_mask=0.06, sig_names=None, p_stateful=0.0, dup_output=0.0, dynamic_batch=0.0, fused_act=0.0):
+                  name_hazard=0.0, extra_outputs=0.3, allow_dead=0.1, const_output=0.0, const_kinds=None, alias_sig=None, bool_mask=0.06, sig_names=None, p_stateful=0.0, dup_output=0.0, dynamic_batch=0.0, fused_act=0.0, bmm_force=None):
     g.subgraph(name=(prefix or "main").encode())
     gr = Grower(g, rng, prefix, shared_consts)
     gr.const_kinds = const_kinds
     gr.dynamic_batch = dynamic_batch
     gr.fused_act = fused_act
+    gr.bmm_force = bmm_force   # (adj_y, constant right-hand side) of every BATCH_MATMUL, or None = random
     # inputs
     r = rng.random()
     if r < 0.55:
